@@ -85,10 +85,30 @@ type cfgT struct {
 const contentLen = 32
 const firstInvalid = 100
 
-// contentBytes maps a content id to file bytes of fixed length.  Ids below
-// firstInvalid decode to cfgT{A: id}; the others are malformed in various ways.
+// number of malformed content ids; the last four are degenerate files of other lengths
+const numInvalid = 12
+const (
+	cidEmpty      = firstInvalid + 8  // 0 bytes: truncate without write, `: > file`, rename-over by an empty file
+	cidWhitespace = firstInvalid + 9  // blanks only
+	cidBOM        = firstInvalid + 10 // a lone UTF-8 byte order mark
+	cidNUL        = firstInvalid + 11 // a single NUL byte
+)
+
+// contentBytes maps a content id to file bytes, of fixed length except for the
+// degenerate ones.  Ids below firstInvalid decode to cfgT{A: id}; the others
+// are malformed in various ways.
 func contentBytes(c int) []byte {
 	var s string
+	switch c {
+	case cidEmpty:
+		return []byte{}
+	case cidWhitespace:
+		return []byte(" \n\t \r\n ")
+	case cidBOM:
+		return []byte{0xEF, 0xBB, 0xBF}
+	case cidNUL:
+		return []byte{0}
+	}
 	if c < firstInvalid {
 		s = fmt.Sprintf(`{"A": %d}`, c)
 	} else {
@@ -343,6 +363,21 @@ func must(err error) {
 func (w *world) next() int { w.gen++; return w.gen }
 func (w *world) newIno()   { w.nextIno++; w.ino = w.nextIno }
 
+// writeInPlace overwrites an open file: one pwrite when the length stays or
+// grows; when it shrinks the file is cut first (what is left of the old
+// content for an instant - a short prefix of it - is never valid).
+func writeInPlace(f *os.File, b []byte) {
+	fi, err := f.Stat()
+	must(err)
+	if fi.Size() > int64(len(b)) {
+		must(f.Truncate(int64(len(b))))
+	}
+	if len(b) > 0 {
+		_, err = f.WriteAt(b, 0)
+		must(err)
+	}
+}
+
 func writeFile(p string, b []byte) {
 	f, err := os.OpenFile(p, os.O_WRONLY|os.O_CREATE|os.O_EXCL, 0o644)
 	must(err)
@@ -449,13 +484,11 @@ func (w *world) apply(o op, pause func()) {
 			must(err)
 			if o.K == "rewrite2" {
 				// two same-size rewrites back to back (one clock tick on coarse timestamps)
-				_, err = f.WriteAt(contentBytes(o.M), 0)
-				must(err)
+				writeInPlace(f, contentBytes(o.M))
 				w.mid = o.M
 				pause()
 			}
-			_, err = f.WriteAt(b, 0)
-			must(err)
+			writeInPlace(f, b)
 			must(f.Close())
 			if o.K == "rewritem" {
 				// a writer that preserves timestamps (rsync --inplace --times, touch -r):
@@ -1285,7 +1318,7 @@ func genOps(r *coqfmt.Rng, maxOps int) []op {
 		case y < 8: // an earlier valid content
 			o.C = r.Intn(nextC)
 		default: // malformed
-			o.C = firstInvalid + r.Intn(8)
+			o.C = firstInvalid + r.Intn(numInvalid)
 		}
 		o.V = r.Intn(4)
 		o.P = r.Intn(3)
@@ -1294,7 +1327,7 @@ func genOps(r *coqfmt.Rng, maxOps int) []op {
 				o.M = nextC
 				nextC++
 			} else {
-				o.M = firstInvalid + r.Intn(8)
+				o.M = firstInvalid + r.Intn(numInvalid)
 			}
 		}
 		ops[i] = o
@@ -1409,6 +1442,11 @@ func corpus() []json.RawMessage {
 	// inotify queue overflow while the loop is parked in a pass; the final rename-over is among the dropped events
 	add(input{Mode: "w", Backend: "args", Layout: 0, Ops: []op{{K: "rewrite", C: 1}, {K: "overflow", C: 2}}})
 	add(input{Mode: "w", Backend: "args", Layout: 3, Ops: []op{{K: "overflow", C: 1}, {K: "rewrite", C: 2}}})
+	// the final state is an EMPTY file (truncate without write, rename-over by an empty file), blanks, a lone BOM, a NUL
+	add(input{Mode: "q", Backend: "args", Layout: 0, Ops: []op{{K: "trunc", C: cidEmpty}, {K: "rename", C: 1}, {K: "rename", C: cidEmpty}, {K: "rewrite", C: 2},
+		{K: "rewrite", C: cidEmpty}, {K: "rewrite", C: cidBOM}, {K: "rewrite", C: 3}, {K: "rewrite2", M: cidEmpty, C: cidNUL}, {K: "k8s", C: cidWhitespace}, {K: "link", C: cidEmpty}}})
+	add(input{Mode: "r", Backend: "dials", Layout: 1, Ops: []op{{K: "k8s", C: 1}, {K: "rewrite", C: cidEmpty, P: 1}}})
+	add(input{Mode: "w", Backend: "args", Layout: 3, Ops: []op{{K: "rewrite", C: 1, H: true}, {K: "rewrite", C: cidEmpty}, {K: "rename", C: 2, H: true}, {K: "trunc", C: cidEmpty}}})
 	// a change between the initial Value() and Watch()
 	add(input{Mode: "q", Backend: "args", Layout: 0, Early: 1, Ops: []op{{K: "rename", C: 3}, {K: "rewrite", C: 4}}})
 	add(input{Mode: "q", Backend: "args", Layout: 3, Early: 2, Ops: []op{{K: "rewrite", C: 3}, {K: "k8s", C: 4}, {K: "rename", C: 5}}})
@@ -1457,7 +1495,7 @@ func main() {
 	must(os.MkdirAll(scratch, 0o755))
 	defer os.RemoveAll(scratch)
 	typ := dials.NewType(ptrify.Pointerify(reflect.TypeOf(cfgT{}), reflect.ValueOf(cfgT{})))
-	for c := 0; c < firstInvalid+8; c++ {
+	for c := 0; c < firstInvalid+numInvalid; c++ {
 		v, err := (&djson.Decoder{}).Decode(strings.NewReader(string(contentBytes(c))), typ)
 		if (err == nil) != (c < firstInvalid) || (err == nil && valueOf(v) != c) {
 			panic(fmt.Sprintf("content table disagrees with the JSON decoder at %d", c))
@@ -1466,7 +1504,7 @@ func main() {
 	driver.Main(driver.Engine{
 		Prop: "C17", CoqImport: "Dials.Check.C17Check", CoqRun: "run_cases",
 		Rule: "histories of 1..12 (thorough 24) operations over {in-place rewrite, truncate+write, atomic rename-over, kubernetes ..data/..dir swap (old directory removed or kept), " +
-			"symlink into another directory, delete (path or target only), directory in place of the file, explicit reload} x content {fresh valid, identical bytes, earlier valid, malformed} " +
+			"symlink into another directory, delete (path or target only), directory in place of the file, explicit reload} x content {fresh valid, identical bytes, earlier valid, malformed incl. the empty file, blanks only, a lone BOM, a single NUL} " +
 			"on 4 initial layouts; half of the cases quiescent-step (compared with the model), a quarter window mode (the loop held inside a pass while the next operation is applied), a quarter racing with pauses {0,50us,2ms}, a fifth of them with the parent directory " +
 			"removed and re-created (poll mode or a final explicit reload), some in poll mode; window cases are non-trivial with >=1 hold that took effect and >=2 operation kinds; " +
 			"non-trivial: >=3 distinct operation kinds and >=2 changes of the file's content; distinct = distinct JSON inputs",
